@@ -1,0 +1,20 @@
+//go:build verif
+
+// Contracts for the pipe/socket serve loop (property C02, reduced core). Comment-only.
+//
+// inputTaken(r): the client's pending input IPC stream on r has been handed to a reader (by
+// drainInputStream or by the lockstep loop's own reader). exhausted(rd): that reader has read
+// its stream to the end. A stream call that is answered with an error must not leave the
+// client's input stream on the transport, or the next request would be read out of it.
+
+package vgirpc
+
+//@ func drainInputStream
+//@   property C02
+//@   establishes inputTaken(r)
+//@   ensures [local_drained_ret1] exhausted(inputReader)
+
+//@ func (*Server).serveStream
+//@   property C02
+//@   ensures [answered_means_drained] result0 != nil ==> inputTaken(r)
+//@   ensures [local_tail_drained_ret10] exhausted(inputReader)
